@@ -128,6 +128,12 @@ pub trait Engine: Sync + Send {
     fn wall_limit(&self) -> Duration {
         Duration::from_secs(240)
     }
+    /// Clauses judged on measured CPU time. A hit of such a clause that does not show again when the minimised case
+    /// is re-executed twice is measurement noise (a loaded machine), not a finding and not a harness fault: it is
+    /// dropped and counted (`probe.timing_hit_unconfirmed`). Every other clause must reproduce exactly.
+    fn timing_clauses(&self) -> Vec<&'static str> {
+        vec![]
+    }
     fn components_real(&self) -> Vec<&'static str> {
         vec![]
     }
@@ -390,7 +396,8 @@ pub fn run_part<E: Engine>(ctx: &Ctx, eng: &E, runs: u64, report: &mut Report) {
                         for v in out.violations {
                             let sig = v.signature();
                             if !h.iter().any(|x| x.v.signature() == sig) && h.len() < 24 {
-                                if ctx.known.lookup(&ctx.prop, &sig).is_none() && std::env::var("VERIF_KEEP_GOING").is_err() {
+                                let timing = eng.timing_clauses().iter().any(|c| *c == v.clause);
+                                if ctx.known.lookup(&ctx.prop, &sig).is_none() && std::env::var("VERIF_KEEP_GOING").is_err() && !timing {
                                     // an unlisted violation fails the check; no need to finish the batch
                                     stop.store(true, Ordering::Relaxed);
                                 }
@@ -433,6 +440,10 @@ pub fn run_part<E: Engine>(ctx: &Ctx, eng: &E, runs: u64, report: &mut Report) {
                 Some(v) => final_v = Some(v),
                 None => ok = false,
             }
+        }
+        if !ok && eng.timing_clauses().iter().any(|c| *c == h.v.clause) {
+            report.stats.bump("probe.timing_hit_unconfirmed");
+            continue;
         }
         if !ok {
             report.harness_errors.push(format!(
